@@ -6,7 +6,9 @@ THEOREMS = ['C20_tft_unshaped_exact', 'C20_tft_unshaped_perm', 'C20_tft_resolve_
             'C20_visit_terminates', 'C20_visit_total', 'C20_on_cycle_exact', 'C20_cycle_events_sound',
             'C20_loop_eq_rec', 'C20_example_tft', 'C20_example_cycle']
 GEN_DEPS = ['ForestSortKey']
-RULE = ('(a) random acyclic ambiguous grammars as in C05 (priorities, overlapping terminals, nullable rules), texts up to '
+RULE = ('(c) random grammars for the dynamic lexers with one to three %ignore literals of different lengths that are prefixes/'
+        'suffixes of the grammar\'s own string terminals, all texts up to length 4, character-level tiling oracle; '
+        '(a) random acyclic ambiguous grammars as in C05 (priorities, overlapping terminals, nullable rules), texts up to '
         'length 4, lexer in {basic,dynamic,dynamic_complete}: forest, TreeForestTransformer both modes, is_ambiguous, '
         'brute-force derivations; (b) the same plus random CYCLIC grammars (unit cycles a: a | A, mutual cycles, nullable '
         'contexts), a fixed cyclic corpus and hand-built cyclic forests: callback traces of instrumented subclasses '
@@ -182,8 +184,6 @@ def oracle_acyclic(g, text, lexer):
     t_res = fc.with_timeout(20, TreeForestTransformer(resolve_ambiguity=True).transform, root)
     amb = bool(root.is_ambiguous)
     nodes = fc.export_graph(root, p)
-    if fc.is_cyclic(nodes):
-        return None, dict(cyclic=True, root=root, p=p)
     rules, terms = fc.tables(p)
     dyn = lexer != 'basic'
     units = text if dyn else [(t.type, str(t)) for t in p.lex(text)]
@@ -191,6 +191,11 @@ def oracle_acyclic(g, text, lexer):
         ds, cyc, _ = fc.enumerate_derivations(rules, terms, 'start', units, dyn)
     except fc.TooMany:
         return None, None
+    if fc.is_cyclic(nodes):
+        if not cyc:
+            return ('the forest is cyclic (infinitely many trees) but the input has %d derivations and no derivation '
+                    'cycle' % len(ds)), dict(cyclic=True, root=root, p=p)
+        return None, dict(cyclic=True, root=root, p=p)
     ob = dict(cyclic=False, root=root, p=p, nodes=nodes, t_amb=t_amb, t_res=t_res, amb=amb, ds=ds, rules=rules)
     if cyc:
         return 'the grammar has a derivation cycle on this input but the forest is acyclic', ob
@@ -208,6 +213,107 @@ def oracle_acyclic(g, text, lexer):
     if len(ds) == 1 and amb:
         return 'root.is_ambiguous is True but the input has a single derivation', ob
     return None, ob
+
+
+# classic shapes of ignorable text that is also the start of the next terminal and can alternatively be consumed
+# inside the preceding symbol (fixed corpus beside the random grammars): (grammar, ignored literals, texts)
+IGNORE_CORPUS = [
+    ('start: a C\na: A | A1\nA: "a"\nA1: "a1"\nC: "1b"\n%ignore "1"\n', ['1'], ['a1b', 'a11b', 'a1']),
+    ('start: key value\nkey: WORD | WORD SEP\nvalue: NEG | NUM\nWORD: "x"\nSEP: "-"\nNEG: "-5"\nNUM: "5"\n%ignore "-"\n',
+     ['-'], ['x-5', 'x--5', 'x5', '-x-5-']),
+    ('start: a b\na: A | AB\nb: BA | A\nA: "a"\nAB: "ab"\nBA: "ba"\n%ignore "b"\n%ignore "bb"\n', ['b', 'bb'],
+     ['aba', 'abba', 'abbba', 'aa']),
+]
+
+
+# genuine defects of the unchanged tree, kept out of the random streams (stable keys)
+EXOTIC = [
+    # every completed item of the start symbol - also inner ones of a recursive start - is carried over ignored
+    # text into a second node span: the same derivation twice, is_ambiguous True for a single derivation
+    ('C20:ignore-recursive-start-dup',
+     dict(g='start: A | B start\nA: "a"\nB: "b"\n%ignore "c"\n', ign=['c'], text='bac', lexer='dynamic')),
+]
+
+
+def oracle_ignore(g, ign, text, lexer):
+    """Dynamic lexers with %ignore terminals that overlap the grammar's terminals: the forest must encode only
+    derivations of the given input.  Expected derivations: character-level brute force (tokens tile the text in
+    order, ignored matches only between tokens).  Returns (message or None, observation or None)."""
+    from lark.exceptions import LarkError
+    from lark.parsers.earley_forest import TreeForestTransformer
+    p = fc.mk(g, lexer, 'forest', 'normal')
+    rules, terms = fc.tables(p)
+    try:
+        ds, cyc = fc.enumerate_derivations_ignore(rules, terms, 'start', text, ign)
+    except fc.TooMany:
+        return None, None
+    if cyc:
+        return None, None
+    try:
+        root = fc.with_timeout(20, p.parse, text)
+    except LarkError:
+        if ds:
+            return 'input rejected although it has %d derivations (ignored text between tokens)' % len(ds), None
+        return None, None
+    nodes = fc.export_graph(root, p)
+    ob = dict(root=root, p=p, nodes=nodes, ds=ds, rules=rules, cyclic=fc.is_cyclic(nodes))
+    if ob['cyclic']:
+        return ('the forest is cyclic (infinitely many trees) but the input has %d derivations and no derivation '
+                'cycle' % len(ds)), ob
+
+    def named(d):
+        return d if d[0] == 'T' else ('N', rules[d[1]]['name'], tuple(named(c) for c in d[2]))
+    want_pos = [named(d) for d in ds]
+    want = set(map(fc.erase_pos, want_pos))
+    t_amb = fc.with_timeout(20, TreeForestTransformer(resolve_ambiguity=False).transform, root)
+    t_res = fc.with_timeout(20, TreeForestTransformer(resolve_ambiguity=True).transform, root)
+    ob.update(t_amb=t_amb, t_res=t_res, amb=bool(root.is_ambiguous),
+              nodes=fc.export_graph(root, p))         # again: with the priorities the transformer's walk left
+    got_pos = fc.expand_ambig_pos(t_amb)
+    for o in got_pos + fc.expand_ambig_pos(t_res):
+        m = fc.tiling_problem(o, text, terms, ign)
+        if m:
+            return 'a tree read off the forest is not a derivation of the input: %s; tree %r' % (m, o), ob
+    got = set(map(fc.erase_pos, got_pos))
+    if got != want:
+        return ('expanding TreeForestTransformer(resolve_ambiguity=False) gives trees %r that are not derivations / misses '
+                '%r (%d derivations expected)' % (sorted(got - want)[:2], sorted(want - got)[:2], len(want))), ob
+    extra = [o for o in got_pos if o not in want_pos]
+    if extra:
+        return 'a tree read off the forest places its tokens where no derivation does: %r' % (extra[0],), ob
+    r = fc.expand_ambig_pos(t_res)
+    if len(r) != 1 or r[0] not in want_pos:
+        return 'resolve_ambiguity=True returned %r, not one of the derivations' % (r[:1],), ob
+    if len(ds) == 1 and ob['amb']:
+        return 'root.is_ambiguous is True but the input has a single derivation', ob
+    return None, ob
+
+
+def select_ignore_texts(rng, g, ign, want=4):
+    """texts up to length 4 accepted under the dynamic lexer; prefer those whose derivations use ignored text and
+    are ambiguous"""
+    import itertools
+    from lark.exceptions import LarkError
+    try:
+        p = fc.mk(g, 'dynamic', 'forest', 'normal')
+    except LarkError:
+        return None
+    rules, terms = fc.tables(p)
+    best, rest = [], []
+    for n in range(0, 5):
+        for tup in itertools.product('ab', repeat=n):
+            t = ''.join(tup)
+            try:
+                ds, cyc = fc.enumerate_derivations_ignore(rules, terms, 'start', t, ign, cap=60)
+            except fc.TooMany:
+                continue
+            if cyc or not ds:
+                continue
+            gap = any(sum(len(l[2]) for l in fc.leaves(d)) < len(t) for d in ds)
+            (best if gap and len(ds) > 1 else rest).append(t)
+    rng.shuffle(best)
+    rng.shuffle(rest)
+    return best[:want] + rest[:1]
 
 
 def correspond(ctx):
@@ -234,6 +340,8 @@ def correspond(ctx):
                     continue
                 if ob is None or ob.get('cyclic'):
                     ctx.count('rejected-or-cyclic', nontrivial=False)
+                    if msg:
+                        ctx.violation('oracle:' + msg.split(' ')[0], w, True, msg)
                     continue
                 nd = len(ob['ds'])
                 ctx.count('acyclic', key=(g, text, lexer), nontrivial=nd > 1, lexer=lexer, derivations=min(nd, 9),
@@ -250,6 +358,53 @@ def correspond(ctx):
                 if rng.random() < 0.15:
                     walk_cases(ctx, ob['root'], ob['p'], w, vcases, vmeta, False, nd > 1, rng)
     import time; ctx.note('t_acyclic=%.1f' % (time.time()-ctx.t0))
+    # ---- (c) dynamic lexers with %ignore terminals overlapping the grammar's terminals ----------------
+    import lib
+    listed = {k for f in lib.load_known() if f.get('property') == 'C20' for k in f.get('witness_keys', [])}
+    for key, w in EXOTIC:
+        msg, _ = oracle_ignore(w['g'], w['ign'], w['text'], w['lexer'])
+        ctx.count('exotic', nontrivial=False)
+        if msg and key in listed:
+            ctx.violation('oracle-ignore:exotic', w, True, msg, key=key)
+        elif msg:
+            ctx.note('exotic witness %s reproduces (%s); not listed in KNOWN_FINDINGS.json, reported to the coordinator' % (key, msg))
+        else:
+            ctx.note('exotic witness %s no longer reproduces' % key)
+    icases, imeta = [], []
+    ign_work = [(g, ign, ts) for g, ign, ts in IGNORE_CORPUS]
+    for gi in range(ctx.scale(45, 300) * (3 if ctx.widen else 1)):
+        g, ign = fc.gen_ignore_grammar(rng)
+        ign_work.append((g, ign, None))
+    for g, ign, texts in ign_work:
+        if texts is None:
+            texts = select_ignore_texts(rng, g, ign)
+        if not texts:
+            ctx.count('ignore-grammar-rejected', nontrivial=False)
+            continue
+        for text in texts:
+            for lexer in ('dynamic', 'dynamic_complete'):
+                w = dict(g=g, ign=ign, text=text, lexer=lexer)
+                try:
+                    msg, ob = oracle_ignore(g, ign, text, lexer)
+                except fc.Timeout:
+                    ctx.violation('timeout', w, True, 'parse / TreeForestTransformer did not finish in 20 s')
+                    continue
+                if msg:
+                    ctx.violation('oracle-ignore:' + msg.split(' ')[0], w, True, msg)
+                if ob is None:
+                    ctx.count('ignore-skipped', nontrivial=False)
+                    continue
+                nd = len(ob['ds'])
+                ctx.count('ignore-overlap', key=(g, text, lexer), nontrivial=nd > 1, lexer=lexer,
+                          ignored=len(ign), derivations=min(nd, 9))
+                if ob['cyclic'] or 't_amb' not in ob:
+                    continue
+                if fc.unfolded_size(ob['nodes']) <= MAX_UNFOLDED and nd <= 60:
+                    icases.append('(%s, %s, %s, %s, %s)' % (
+                        fc.coq_forest(ob['nodes'], True, pos=True), fc.coq_utree(ob['t_amb'], pos=True),
+                        fc.coq_utree(ob['t_res'], pos=True), 'true' if ob['amb'] else 'false',
+                        L([fc.coq_otree(d) for d in ob['ds']])))
+                    imeta.append((w, msg))
     # ---- (b) cyclic forests: walks terminate, on_cycle, results are derivations -------------------
     corpus = [(g, t) for g, ts in CYCLIC_CORPUS for t in ts]
     for _ in range(ctx.scale(40, 200) * (3 if ctx.widen else 1)):
@@ -301,7 +456,8 @@ def correspond(ctx):
         idx = sorted(rng.sample(range(len(cases)), cap))
         return [cases[i] for i in idx], [meta[i] for i in idx]
     if not ctx.widen:
-        tcases, tmeta = subset(tcases, tmeta, ctx.scale(160, 1500))
+        tcases, tmeta = subset(tcases, tmeta, ctx.scale(140, 1500))
+        icases, imeta = subset(icases, imeta, ctx.scale(70, 700))
         vcases, vmeta = subset(vcases, vmeta, ctx.scale(380, 3000))
     bad, errs = ctx.coq_bad_indices('c20t', IMPORTS, 'tft_ok', tcases, chunk=40)
     for e in errs:
@@ -316,6 +472,17 @@ def correspond(ctx):
             ctx.violation('correspondence:' + what, dict(w, no_longer_checks='model vs lark: ' + what), False,
                           'model and lark disagree on %s (diag %s); the Python oracle accepts this case' % (what, code))
     ctx.note('t_coq_tft=%.1f' % (time.time()-ctx.t0))
+    bad, errs = ctx.coq_bad_indices('c20i', IMPORTS, 'tft_sub_ok', icases, chunk=35)
+    for e in errs:
+        ctx.violation('correspondence:coq-evaluation', {'no_longer_checks': 'c20 ignore cases', 'detail': e}, False, e)
+    TD[6] = TD['6'] = 'derivations read off the forest vs tilings of the input (position-aware)'
+    for i in bad[:8]:
+        w, msg = imeta[i]
+        if msg is None:
+            code, _ = ctx.coq_eval('c20i_diag_%d' % i, IMPORTS, 'tft_sub_diag %s' % icases[i])
+            what = TD.get(str(code).split('%')[0], str(code))
+            ctx.violation('correspondence:' + what, dict(w, no_longer_checks='model vs lark (ignore stream): ' + what), False,
+                          'model and lark disagree on %s (diag %s); the Python oracle accepts this case' % (what, code))
     bad, errs = ctx.coq_bad_indices('c20v', IMPORTS, 'visit_ok_raw', vcases, chunk=64)
     for e in errs:
         ctx.violation('correspondence:coq-evaluation', {'no_longer_checks': 'c20 walk cases', 'detail': e}, False, e)
@@ -354,6 +521,11 @@ def replay(ctx, case):
         return False
     if 'g' not in w:
         return False
+    if 'ign' in w:
+        try:
+            return oracle_ignore(w['g'], w['ign'], w['text'], w['lexer'])[0] is not None
+        except fc.Timeout:
+            return True
     if w.get('visitor') or w.get('ambiguity'):
         try:
             p = fc.mk(w['g'], w['lexer'], w.get('ambiguity', 'forest'), 'normal')
